@@ -62,4 +62,23 @@ def setTargetLists (targets : Option (List String)) (t : Table) (family : String
   | some [] => familyMembers family
   | some l => l.map (convertName t)
 
+/-! ## defective variants (used only by `example`s that show which theorems tell them apart) -/
+
+/-- DEFECTIVE variant of `convertLabel`: compares the argument as given, without lower-casing it -/
+def convertLabelCS (t : Table) (name : String) : String :=
+  match t.find? (fun p => p.2 == name) with
+  | some p => p.1
+  | none => "UNKNOWN"
+
+/-- DEFECTIVE variant of a pair table: the alias `name` is registered for the label `wrong` (the kind of defect
+of F6: a table row that maps a non-canonical alias to another label of the family) -/
+def withWrongAlias (t : Table) (name wrong : String) : Table :=
+  t.map (fun p => if p.2 == name then (wrong, p.2) else p)
+
+/-- DEFECTIVE variant of `setTargetLists`: `None` / empty gives the empty list instead of every member -/
+def setTargetLists_noDefault (targets : Option (List String)) (t : Table) : List String :=
+  match targets with
+  | none => []
+  | some l => l.map (convertName t)
+
 end PEval.Label
